@@ -889,6 +889,20 @@ func (x *Exec) run() {
 			st.vars[r] = Val{T: c.zero(r.Type()), Ty: r.Type()}
 		}
 	}
+	// spawns mode: the ghost logs of every family of channels this call makes exist from the start
+	x.famElem = map[string]types.Type{}
+	if x.con != nil && x.con.Spawns {
+		ast.Inspect(fi.Body, func(nd ast.Node) bool {
+			if ce, ok := nd.(*ast.CallExpr); ok {
+				if id, ok := ce.Fun.(*ast.Ident); ok && id.Name == "make" && len(ce.Args) > 0 {
+					if u, ok := info.TypeOf(ce.Args[0]).Underlying().(*types.Chan); ok {
+						x.famState(st, c.sortOf(u.Elem()), u.Elem())
+					}
+				}
+			}
+			return true
+		})
+	}
 	// process-wide streams used by the body get writer ghost state at entry
 	for _, nm := range []string{"Stdout"} {
 		uses := false
@@ -1088,6 +1102,26 @@ func (x *Exec) initHandle(st *State, v Val, name string) {
 	}
 }
 
+// famState creates (once per element sort) the ghost logs of the family of channels made by a `spawns` function:
+// famarr maps a channel handle to the sequence of values sent on it, famn to their number (all 0 at entry).
+func (x *Exec) famState(st *State, es string, elem types.Type) {
+	if _, ok := st.gh["famarr:"+es]; ok {
+		return
+	}
+	x.famElem[es] = elem
+	st.gh["famarr:"+es] = Val{T: x.c.freshConst("famarr0", "(Array Int (Array Int "+es+"))")}
+	st.gh["famn:"+es] = Val{T: "((as const (Array Int Int)) 0)"}
+}
+
+// famView is sent(h) for a family channel: the per-handle slice of the family logs.
+func (x *Exec) famView(st *State, es string, elem types.Type, h string) (Val, bool) {
+	arrs, ok := st.gh["famarr:"+es]
+	if !ok {
+		return Val{}, false
+	}
+	return Val{Seq: &SeqVal{Arr: app("select", arrs.T, h), N: app("select", st.gh["famn:"+es].T, h), Elem: elem, ESort: es}}, true
+}
+
 func (x *Exec) execSend(n *ast.SendStmt, st *State, env *Env) {
 	ch := x.eval(n.Chan, st, env)
 	u, ok := ch.Ty.Underlying().(*types.Chan)
@@ -1101,6 +1135,18 @@ func (x *Exec) execSend(n *ast.SendStmt, st *State, env *Env) {
 	k := "sent:" + ch.T
 	cur, ok := st.gh[k]
 	if !ok {
+		es := x.c.sortOf(u.Elem())
+		if _, fam := st.gh["famarr:"+es]; fam {
+			// a channel of the family made by this call (spawns mode), reached through any expression: the handle must
+			// be one this call made, so that the logs of the channel parameters stay complete
+			x.safety("famsend", n, st, app("<=", x.alloc0, ch.T), "send through a computed channel expression: the channel is one this call made")
+			arrs, ns := st.gh["famarr:"+es].T, st.gh["famn:"+es].T
+			cnt := app("select", ns, ch.T)
+			st.gh["famarr:"+es] = Val{T: x.c.define("famarr", "(Array Int (Array Int "+es+"))", app("store", arrs, ch.T, app("store", app("select", arrs, ch.T), cnt, v.T)))}
+			st.gh["famn:"+es] = Val{T: x.c.define("famn", "(Array Int Int)", app("store", ns, ch.T, add(cnt, "1")))}
+			x.c.notes["channel sends never block; channels are ghost sequences (sequential model)"] = true
+			return
+		}
 		panic(unsupported("send on a channel without ghost state: " + exprString(n.Chan)))
 	}
 	s := *cur.Seq
